@@ -2,6 +2,7 @@ SPECIFICATION Spec
 CONSTANTS
   NamesUsed = {"l2"}
   InitAuto = TRUE
+  Broken = FALSE
   TwoPaths = TRUE
   MaxLen = 6
 INVARIANTS
